@@ -159,8 +159,8 @@ func FlagCfg(base wl.Cfg, m int) wl.Cfg {
 	return c
 }
 
-var SchemaIDs = []uint16{1, 2, 65535, 7}
-var ChannelIDs = []uint16{0, 1, 65535, 9, 300}
+var SchemaIDs = []uint16{1, 2, 65535, 7, 65534} // the top of the id range from both sides (tables indexed by id grow towards it)
+var ChannelIDs = []uint16{0, 1, 65535, 9, 300, 65534, 40000}
 
 // Calls draws a legal call sequence of about n data calls.
 func (g *G) Calls(n int, chunkSize int64) []wl.Call {
@@ -398,7 +398,7 @@ func (g *G) AsmWorkload(id string, n int, unregistered bool) wl.Workload {
 				calls = append(calls, schemas[sid].c)
 				schemas[sid].written, schemas[sid].added = true, true
 			}
-			if !d.added || g.R.Intn(2) == 0 {
+			if !d.added || !d.written || g.R.Intn(2) == 0 {
 				calls = append(calls, d.c)
 				d.written, d.added = true, true
 			}
